@@ -223,6 +223,9 @@ func (x *c03Interp) eval(fr *c03Frame, st *c03State, e ast.Expr) []c03EV {
 			}
 			u := x.unk(t)
 			u.From = o.vs
+			if c, ok := c03CountOp(e.Op, a, b); ok {
+				u.HasCnt, u.Cnt = true, c
+			}
 			out = append(out, c03EV{o.st, u})
 		}
 		return out
@@ -304,6 +307,9 @@ func (x *c03Interp) eval(fr *c03Frame, st *c03State, e ast.Expr) []c03EV {
 		for _, ev := range x.eval(fr, st, e.X) {
 			for _, bo := range x.evalList(fr, ev.st, bounds) {
 				v := ev.v
+				if e.High != nil {
+					v = c03MadeFull(v) // x[a:b] of a presized list that has been filled completely
+				}
 				if v.K == c03KAddr || v.K == c03KPtr { // slicing through a pointer to an array
 					if pv := bo.st.Pointee(v); pv != nil {
 						v = pv
@@ -330,7 +336,7 @@ func (x *c03Interp) eval(fr *c03Frame, st *c03State, e ast.Expr) []c03EV {
 				case known && lo == 0 && hi < 0 && e.Max == nil:
 					// x[:] is x (an array becomes the slice of all its elements)
 					out = append(out, c03EV{bo.st, c03Retype(v, t)})
-				case known && v.K == c03KList && v.Base == nil && !c03HasSpread(v) && e.Max == nil:
+				case known && v.K == c03KList && v.Base == nil && !c03HasSpread(v):
 					n := int64(len(v.Elems))
 					if hi < 0 {
 						hi = n
@@ -346,6 +352,13 @@ func (x *c03Interp) eval(fr *c03Frame, st *c03State, e ast.Expr) []c03EV {
 					}
 					fallthrough
 				default:
+					if known && hi < 0 && v.K == c03KList && v.Base != nil {
+						if nl := c03MadeSliceFrom(v, lo); nl != nil {
+							nl.T = t
+							out = append(out, c03EV{bo.st, nl})
+							break
+						}
+					}
 					out = append(out, c03EV{bo.st, &c03V{K: c03KUnk, T: t, Key: x.fresh("s"), From: []*c03V{v}, Z: triU}})
 				}
 			}
@@ -1069,7 +1082,7 @@ func (x *c03Interp) evalBuiltin(fr *c03Frame, st *c03State, call *ast.CallExpr, 
 	for _, o := range x.evalList(fr, st, call.Args) {
 		switch name {
 		case "len", "cap":
-			a := o.vs[0]
+			a := c03MadeFull(o.vs[0])
 			if a.K == c03KList && a.Base == nil && name == "len" {
 				spread := false
 				for _, e := range a.Elems {
@@ -1089,6 +1102,9 @@ func (x *c03Interp) evalBuiltin(fr *c03Frame, st *c03State, call *ast.CallExpr, 
 			u := x.unk(t)
 			if name == "len" {
 				u.LenOf = a
+				if a.K == c03KInit {
+					u.HasCnt, u.Cnt = true, 1 // a loop over a symbolic list runs once
+				}
 			}
 			out = append(out, c03EV{o.st, u})
 		case "append":
